@@ -39,6 +39,11 @@ class FalsyRec(Rec):
         return 0
 
 
+class DictRec(dict):
+    """A dict SUBCLASS that also carries attributes (an application row type): key-style fields are items,
+    attribute-style fields live in the instance __dict__."""
+
+
 _NAMED_REC = {}
 
 
@@ -51,6 +56,8 @@ def named_rec_class(name):
 
 def peek(obj, name, default=None):
     """Read a hint (key or attribute) from a data object of either style."""
+    if isinstance(obj, DictRec) and name in obj.__dict__:
+        return obj.__dict__[name]
     if isinstance(obj, dict):
         return obj.get(name, default)
     if isinstance(obj, Rec):
@@ -61,7 +68,9 @@ def peek(obj, name, default=None):
 
 
 def poke(obj, name, value, attr=False):
-    if isinstance(obj, dict):
+    if isinstance(obj, DictRec) and attr:
+        obj.__dict__[name] = value
+    elif isinstance(obj, dict):
         obj[name] = value
     elif attr:
         obj.__dict__[name] = value
@@ -372,7 +381,10 @@ class RefExec:
         marker = "_has_" + fd.name
         if peek(obj, marker) is None:
             raw = self.gen_raw(fd.type, path, obj_type, fd, top=True)
-            if isinstance(obj, dict):
+            if isinstance(obj, DictRec) and attr:
+                obj.__dict__[fd.name] = raw
+                obj[marker] = True
+            elif isinstance(obj, dict):
                 obj[fd.name] = raw
                 obj[marker] = True
             elif isinstance(obj, Rec):
@@ -385,6 +397,8 @@ class RefExec:
                 return None
             self.plan.probe("default_attr" if (attr and isinstance(obj, Rec)) else "default_key")
             return raw
+        if isinstance(obj, DictRec) and fd.name in obj.__dict__:
+            return obj.__dict__[fd.name]
         if isinstance(obj, dict):
             return obj.get(fd.name)
         if fd.name in obj.__dict__:
@@ -534,8 +548,13 @@ class RefExec:
             style = "rec"
         if abstract and level == "default" and t.chance(30):
             style = "class"
+        if style == "rec" and self.tp(path, "#style").chance(25):
+            style = "dictsub"
+            self.plan.probe("dict_subclass_parent_with_attributes")
         if style == "dict":
             o = {}
+        elif style == "dictsub":
+            o = DictRec()
         elif style == "class":
             o = named_rec_class(truth)()
         elif t.chance(15):
